@@ -1,6 +1,7 @@
 package main
 
 import (
+	"syscall"
 	"bytes"
 	"errors"
 	"fmt"
@@ -29,7 +30,15 @@ type wlog struct {
 
 // faultyWriter accepts k bytes, then fails stickily (two delivery modes) and logs every Write.
 // the error VALUE a failing destination returns is its own business (a pipe closed with io.EOF, a short write, ...)
-var faultErrs = []error{errInjected, io.EOF, io.ErrShortWrite, io.ErrUnexpectedEOF, io.ErrClosedPipe}
+// tempErr: what a non-blocking or deadline-bound destination returns (net.Error style: Temporary() / Timeout() true);
+// syscall.EAGAIN is the errno form of the same thing
+type tempErr struct{}
+
+func (tempErr) Error() string   { return "resource temporarily unavailable (injected)" }
+func (tempErr) Temporary() bool { return true }
+func (tempErr) Timeout() bool   { return true }
+
+var faultErrs = []error{errInjected, io.EOF, io.ErrShortWrite, io.ErrUnexpectedEOF, io.ErrClosedPipe, tempErr{}, syscall.EAGAIN}
 
 type faultyWriter struct {
 	errv   error
@@ -263,22 +272,34 @@ func wfRun(args []string) error {
 			// which error value the destination returns: one (rotating) in the middle, every kind near both ends of the output
 			errIdx := []int{(k + len(O)) % len(faultErrs)}
 			if k <= 12 || k >= len(O)-12 {
-				errIdx = []int{0, 1, 2, 3, 4}
+				errIdx = []int{0, 1, 2, 3, 4, 5, 6}
 			}
 			for _, mode := range []string{"errAtCall", "shortWrite", "transientErr", "transientShort", "budget", "fullErr", "transientFull"} {
-				for _, destE := range []string{"norf", "rf"} {
+				for _, destE := range []string{"norf", "rf", "cw"} {
 					for _, ei := range errIdx {
 						dest := destE
-						if mode != "errAtCall" && mode != "shortWrite" && ei != errIdx[0] {
-							continue
+						if mode != "errAtCall" && mode != "shortWrite" && ei != errIdx[0] && !(ei >= 5 && (mode == "transientShort" || mode == "transientErr")) {
+							continue // (the temporary kinds matter most where the destination does recover)
 						}
 						if dest == "rf" && !(len(s.name) > 6 && s.name[:6] == "bundle") && k%4 != 0 {
 							continue // io.ReaderFrom only matters where CountingWriter may take that path
 						}
+						if dest == "cw" && (!(len(s.name) > 6 && s.name[:6] == "bundle") || (k%3 != 0 && k > 12 && k < len(O)-12)) {
+							continue // a byte meter of the caller's only concerns the serializer that returns a count
+						}
 						id++
 						var fw *faultyWriter
 						var w io.Writer
-						if dest == "rf" {
+						if dest == "cw" {
+							// the caller's own byte meter (a *bundle.CountingWriter that has already counted a prefix written
+							// through it, e.g. an integrity block in front of the bundle) handed to the serializer
+							fw = &faultyWriter{k: 1 << 30, mode: mode, errv: faultErrs[ei]}
+							cw := bundle.NewCountingWriter(fw)
+							cw.Write([]byte("57 bytes that went through the same meter before the bundle"))
+							fw.acc.Reset()
+							fw.log, fw.k = nil, k
+							w = cw
+						} else if dest == "rf" {
 							rf := &faultyRF{faultyWriter{k: k, mode: mode, errv: faultErrs[ei]}}
 							fw, w = &rf.faultyWriter, rf
 						} else {
